@@ -419,7 +419,7 @@ class AsyncBaseClientOpenTelemetry:
             payload["payload"]["variables"] = self._convert_dict_to_json_serializable(
                 variables
             )
-        await websocket.send(json.dumps(payload))
+        await websocket.send(json.dumps(payload, default=to_jsonable_python))
 
     async def _handle_ws_message(
         self,
@@ -639,7 +639,10 @@ class AsyncBaseClientOpenTelemetry:
             if variables:
                 span.set_attribute(
                     "variables",
-                    json.dumps(self._convert_dict_to_json_serializable(variables)),
+                    json.dumps(
+                        self._convert_dict_to_json_serializable(variables),
+                        default=to_jsonable_python,
+                    ),
                 )
 
             await self._send_subscribe(
